@@ -4,3 +4,4 @@ import DvidModel.Props.C06
 import DvidModel.Props.C15
 import DvidModel.Props.C05
 import DvidModel.Props.C18
+import DvidModel.Props.C07
